@@ -442,10 +442,17 @@ def sibling_skeleton_rule(prog, chk, rule, names, roles, callees, floor_shapes=1
     must be the same set in all sibling implementations of one interface (e.g. the four Argon2 block-fill backends compute
     the reference lane / index identically; only the block compression differs)."""
     sets = {}
+    fns_by = {}
     for nm in names:
-        fn = prog.fn(nm)
+        if isinstance(nm, tuple):          # (name, unit substring): siblings that share a name across units
+            cands = [f for f in prog.functions() if not f.decl and f.sname == nm[0] and nm[1] in f.unit]
+            fn = cands[0] if cands else None
+            nm = "%s (%s)" % nm
+        else:
+            fn = prog.fn(nm)
         if fn is None:
             continue
+        fns_by[nm] = fn
         S = {}
         for p in paths(prog, fn):
             sh = Shaper(prog, p, roles)
@@ -464,7 +471,7 @@ def sibling_skeleton_rule(prog, chk, rule, names, roles, callees, floor_shapes=1
         missing = sorted(set(ref) - set(S))
         ok = not only and not missing
         where = S[only[0]] if only else (ref[missing[0]] if missing else None)
-        chk.ob(rule, prog.fn(nm), "scalar control skeleton (%d shapes) equals that of %s" % (len(S), ref_name), ok,
+        chk.ob(rule, fns_by[nm], "scalar control skeleton (%d shapes) equals that of %s" % (len(S), ref_name), ok,
                loc=where[0].loc(where[1]) if where else None,
                detail="" if ok else "only here: %s | only in %s: %s" % ([x[:260] for x in only[:1]], ref_name, [x[:260] for x in missing[:1]]),
                key="%s %s" % (rule, nm))
